@@ -9,7 +9,7 @@ from vf.gen import SeedSource
 from vf.lang import show, typeof, walk
 from vf.props.c02 import gen_case as gen_program
 
-FOLLOWUPS = ["align", "reduce_add", "reduce_logaddexp", "reduce_max", "subs0", "add_self", "exp", "neg", "to_data", "sample", "compile", "adjoint", "optimizer", "getitem", "sum_out", "rename", "slice", "pickle"]
+FOLLOWUPS = ["align", "reduce_add", "reduce_logaddexp", "reduce_max", "subs0", "add_self", "exp", "neg", "to_data", "sample", "compile", "adjoint", "optimizer", "getitem", "sum_out", "rename", "slice", "pickle", "scatter", "scatter", "blocks"]
 
 
 def gen_case(seed):
@@ -219,6 +219,38 @@ class C20(Prop):
                 return x(**{ints[0]: Slice(ints[0], 0, n, 2, n)})
             if op == "pickle":
                 return pickle.loads(pickle.dumps(x))
+            if op == "scatter" and ints and isinstance(x, Tensor):
+                # destin[i = perm[n]] = x[n] for a permutation held in a monitored array (bijective: same shape as the source)
+                from funsor.terms import Scatter
+
+                n_ = ints[case["rng"] % len(ints)]
+                size = x.inputs[n_].size
+                perm = tuple(int(v) for v in np.random.RandomState(case["rng"]).permutation(size))
+                idx = Tensor(leaves.make(("ten", ((n_, size),), (), size, perm, False)), OrderedDict([(n_, Bint[size])]), size)
+                return Scatter(ops.add, (("zz_scattered", idx),), x, frozenset({Variable(n_, Bint[size])}))
+            if op == "blocks":
+                # the block assembly helpers, fed with the monitored arrays; one block is assigned twice
+                from funsor.gaussian import BlockMatrix, BlockVector
+
+                vecs = [a[0].reshape(-1) for a in leaves.arrays if a[0].dtype == float and a[0].size][:3]
+                if not vecs:
+                    return None
+                total = sum(v.size for v in vecs)
+                bv = BlockVector((total,))
+                o = 0
+                for v in vecs:
+                    bv[o : o + v.size] = v
+                    o += v.size
+                bv[0 : vecs[0].size] = vecs[-1][: vecs[0].size] if vecs[-1].size >= vecs[0].size else vecs[0]
+                out_v = bv.as_tensor()
+                k = vecs[0].size
+                m0 = np.outer(vecs[0], vecs[0])
+                held_m = leaves.make(("ten", (), (k, k), "real", tuple(float(v) for v in m0.reshape(-1)), False))
+                bm = BlockMatrix((2 * k, 2 * k))
+                bm[0:k, 0:k] = held_m
+                bm[k : 2 * k, k : 2 * k] = held_m
+                bm[0:k, 0:k] = held_m * 0.5 if case["rng"] % 2 else held_m
+                return Tensor(np.concatenate([out_v.reshape(-1), bm.as_tensor().reshape(-1)]))
             return None
 
         for op in case["followups"]:
